@@ -1976,7 +1976,8 @@ class mulgrid(object):
                 layer = self.layerlist[1] 
             else: layer = self.layer_containing_elevation(pos[2])
             if layer:
-                if (col.surface > layer.bottom):
+                # (a point above the ground surface is not in any block)
+                if (col.surface > layer.bottom) and (pos[2] <= col.surface):
                     blkname = self.block_name(layer.name, col.name, blockmap)
         return blkname
 
@@ -1991,7 +1992,8 @@ class mulgrid(object):
             if layname in self.layer:
                 lay = self.layer[layname]
                 if col.surface > lay.bottom:
-                    if lay.contains_elevation(pos[2]):
+                    # block extends from layer bottom up to layer top or ground surface:
+                    if lay.bottom <= pos[2] <= self.block_surface(lay, col):
                         result = col.contains_point(pos[0:2])
         return result
 
